@@ -1,5 +1,6 @@
 import ObiVerif.Props.C13W
 import ObiVerif.Model.CleanF
+import ObiVerif.Lemmas.F64
 /-!
 # C13, third pass: float64 arithmetic, the true length frontier of `--distance > 1`, the order of `son.Edges`,
 the per-sample `obiclean_weight`, the side outputs
@@ -109,6 +110,40 @@ theorem float_agrees_usual_ratios :
     F64.keeps 5 100 5 100 1 = some true ∧ F64.keeps 5 100 25 10000 2 = some true ∧ F64.keeps 5 100 125 1000000 3 = some true ∧
     F64.keeps 1 2 1 2 1 = some true ∧ F64.keeps 1 2 1 4 2 = some true ∧ F64.keeps 1 2 1 8 3 = some true := by
   decide +kernel
+
+/-! ## the local agreement theorems, against the IEEE-754 model (proofs in Lemmas/F64.lean) -/
+
+/-- **`float_share_exact`** — one multiplication, one division, `math.Round`: `int(math.Round(float64(w) * float64(c) / swf))`
+(with `swf` accumulated in float64 over the fathers' counts) IS the exact round-half-away of `w * c / Σ counts`
+whenever `w * c < 2^52` and `Σ counts < 2^53` — every rounding of the IEEE model is accounted for -/
+theorem float_share_exact (w c : Nat) (fs : List Nat) (h1 : w * c < 2 ^ 52) (h2 : 0 < fs.sum) (h3 : fs.sum < 2 ^ 53)
+    (h4 : w < 2 ^ 53) (h5 : c < 2 ^ 53) : floatArith.share w c fs = exactArith.share w c fs :=
+  F64.share_exact w c fs h1 h2 h3 h4 h5
+
+example : floatArith.share 4000000 1000000 [1000000, 999999] = 2000001 ∧ 4000000 * 1000000 < 2 ^ 52 := by decide +kernel
+
+/-- **`float_ratio_exact_d1`** — one division + comparison, distance one: `float64(w1) / float64(wf) <= ratio` with
+`ratio = float64(p) / float64(q)` (what the option parser yields for a decimal literal of `p/q`) IS `w1 * q ≤ p * wf`
+whenever `w1 * q < 2^52` and `p * wf < 2^52`, for EVERY ratio `p/q < 1`, dyadic or not -/
+theorem float_ratio_exact_d1 (p q w1 wf : Nat) (hq : 0 < q) (hwf : 0 < wf) (hpq : p < q)
+    (ha : w1 * q < 2 ^ 52) (hb : p * wf < 2 ^ 52) (hq' : q < 2 ^ 53) (hwf' : wf < 2 ^ 53) :
+    floatArith.keeps p q w1 wf 1 = exactArith.keeps p q w1 wf 1 :=
+  F64.keeps_exact_d1 p q w1 wf hq hwf hpq ha hb hq' hwf'
+
+example : floatArith.keeps 1 10 3 30 1 = some true ∧ floatArith.keeps 1 10 3 29 1 = some false := by decide +kernel
+
+/-- **`float_ratio_exact_half`** — comparison against a power, `--ratio 0.5`, every distance `1 ≤ d ≤ 61` (Go's `pow` loop
+returns exactly `2^-d`) -/
+theorem float_ratio_exact_half (w1 wf d : Nat) (hd : 1 ≤ d) (hd' : d ≤ 61) (h1 : w1 < 2 ^ 52) (h2 : 0 < wf)
+    (h3 : wf < 2 ^ 53) : floatArith.keeps 1 2 w1 wf d = exactArith.keeps 1 2 w1 wf d := by
+  have := F64.keeps_exact_half w1 wf d hd hd' h1 h2 h3
+  simpa [floatArith, exactArith] using this
+
+/-- **`float_share_differs_big`** (evaluated on the IEEE model) — beyond the bound the two do differ, with counts below `2^31`:
+`w = 10^8`, fathers of counts `199999998` and `1` : the code hands `100000000`, exact rounding `99999999` -/
+theorem float_share_differs_big :
+    floatArith.share 100000000 199999998 [199999998, 1] = 100000000 ∧
+    exactArith.share 100000000 199999998 [199999998, 1] = 99999999 := by decide +kernel
 
 /-! ## `--distance > 1` : the true length frontier -/
 
